@@ -180,7 +180,13 @@ def _exit_rule(ctx, facts, fid):
                 else:
                     ctx.violation("EXIT", fid, "loop guard", where, "the loop condition is not `x < get_max_value()`: at its exit holds %s" % (conds[:1],))
             else:
-                if inner == "MAX(exit)":
+                if loop["src"] == "ForLoop":
+                    # a `for` of a race function runs over the items (the input, or the deferral buffer): leaving it early drops
+                    # the items not yet visited, whatever the reason — the item at hand may be abandoned with `continue` only
+                    ctx.violation("EXIT", fid, "break out of the loop over items", where,
+                                  "this `break` leaves the loop over the items (taken when %s): the items that follow are never offered their point, "
+                                  "so the signature depends on the order in which the container yields them" % (conds[:1],))
+                elif inner == "MAX(exit)":
                     ctx.ok("EXIT", fid, "break on %s" % (conds[0],), where)
                 else:
                     ctx.violation("EXIT", fid, "break", where,
